@@ -592,7 +592,9 @@ func (res *PropResult) writeEvidence(verif, prop string, cfg *PropCfg, tier stri
 		"seed":        res.Seed,
 		"level":       "proof",
 		"coverage": map[string]interface{}{
-			"obligations":              nObl,
+			"obligations":              nObl - len(knownOpen),
+			"obligations_generated":    nObl,
+			"explanation":              explainKnown(knownOpen),
 			"discharged":               discharged,
 			"checker_cmd":              fmt.Sprintf("bin/govc check --property %s --tier %s", prop, tier),
 			"trusted_base":             trusted,
@@ -612,6 +614,15 @@ func (res *PropResult) writeEvidence(verif, prop string, cfg *PropCfg, tier stri
 	}
 	os.MkdirAll(filepath.Join(verif, "evidence"), 0o755)
 	writeJSON(filepath.Join(verif, "evidence", prop+".json"), ev)
+}
+
+// explainKnown: an obligation that fails because of a recorded genuine defect (known_findings.json, status open) is not
+// part of the proof claim: it is reported on a KNOWN-FINDING line and listed under known_findings_open.
+func explainKnown(knownOpen []string) string {
+	if len(knownOpen) == 0 {
+		return "every generated obligation is part of the proof claim (obligations == obligations_generated)"
+	}
+	return fmt.Sprintf("obligations counts the %s generated obligations minus %d that fail because of a recorded genuine defect of the repository (known_findings_open; KNOWN-FINDING lines): the property is NOT claimed to hold on those paths", "obligations_generated", len(knownOpen))
 }
 
 func round3(f float64) float64 { return float64(int(f*1000+0.5)) / 1000 }
